@@ -137,6 +137,7 @@ fn base(rng: &mut Rng) -> G<'_> {
         },
         queries: vec![],
         tags: vec![],
+        fan: None,
     };
     let mut g = G { rng, w, next_srv: 0, next_host: 0, next_m: 0, solid: vec![], slds: vec![], tlds: vec![] };
 
